@@ -34,6 +34,19 @@ func HostPickler(x starlark.Value) (string, string, starlark.Tuple, error) {
 	return "", "", nil, pickle.ErrCannotPickle
 }
 
+// HostPicklerT is HostPickler as a pickle.RecursivePickler: a host object that is reached again while its own
+// arguments are being encoded (it is one of its own arguments, like a recursive function is one of its own
+// globals) is encoded as the stand-in host.Rec(name).
+type HostPicklerT struct{}
+
+func (HostPicklerT) Pickle(x starlark.Value) (string, string, starlark.Tuple, error) { return HostPickler(x) }
+func (HostPicklerT) PickleRecursive(x starlark.Value) (string, string, starlark.Tuple, error) {
+	if h, ok := x.(*HostObj); ok {
+		return "vh", "Rec", starlark.Tuple{starlark.String(h.Name)}, nil
+	}
+	return "", "", nil, pickle.ErrCannotPickle
+}
+
 func HostUnpickler(module, name string, args starlark.Tuple) (starlark.Value, error) {
 	if module != "vh" {
 		return nil, fmt.Errorf("unknown module %q", module)
@@ -66,6 +79,9 @@ var SizeClasses = []int{0, 1, 2, 3, 4, 5, 999, 1000, 1001, 2000, 2001, 3001}
 type Gen struct {
 	R    *rand.Rand
 	Host bool // may generate HostObj values
+	// RecHost: some host objects are one of their own arguments (needs HostPicklerT); host objects are then also
+	// shared through the pool, so memoized values follow them in the encoding
+	RecHost bool
 	// Unique makes every leaf distinct (used to make aliasing checks unambiguous).
 	ctr int
 }
@@ -254,7 +270,19 @@ func (g *Gen) Value(depth int, pool *[]starlark.Value) starlark.Value {
 			args[i] = g.Value(depth-1, nil)
 		}
 		g.ctr++
-		return &HostObj{Name: fmt.Sprintf("T%d", g.R.IntN(3)), Args: args}
+		h := &HostObj{Name: fmt.Sprintf("T%d", g.R.IntN(3)), Args: args}
+		if g.RecHost {
+			if g.R.IntN(2) == 0 {
+				h.Args = append(h.Args, h)
+				if g.R.IntN(3) == 0 { // not in the last position
+					h.Args = append(h.Args, g.Leaf())
+				}
+			}
+			if pool != nil {
+				*pool = append(*pool, h)
+			}
+		}
+		return h
 	}
 }
 
@@ -267,7 +295,8 @@ func Iso(a, b starlark.Value) error {
 }
 
 type isoState struct {
-	ab, ba map[starlark.Value]starlark.Value
+	ab, ba     map[starlark.Value]starlark.Value
+	activeHost map[*HostObj]bool // host objects whose arguments are being compared
 }
 
 func (s *isoState) ident(a, b starlark.Value, path string) (seen bool, err error) {
@@ -392,13 +421,26 @@ func (s *isoState) iso(a, b starlark.Value, path string) error {
 		if !ok {
 			return fmt.Errorf("%s: hostobj vs %s", path, b.Type())
 		}
+		if s.activeHost[a] {
+			// a host object reached again through its own arguments decodes to the stand-in host.Rec(name)
+			if bb.Name != "Rec" || len(bb.Args) != 1 || bb.Args[0] != starlark.String(a.Name) {
+				return fmt.Errorf("%s: recursive reference to host.%s decoded as %s", path, a.Name, Describe(bb))
+			}
+			return nil
+		}
 		if seen, err := s.ident(a, bb, path); seen || err != nil {
 			return err
 		}
 		if a.Name != bb.Name {
 			return fmt.Errorf("%s: hostobj name %q vs %q", path, a.Name, bb.Name)
 		}
-		return s.iso(a.Args, bb.Args, path+".args")
+		if s.activeHost == nil {
+			s.activeHost = map[*HostObj]bool{}
+		}
+		s.activeHost[a] = true
+		err := s.iso(a.Args, bb.Args, path+".args")
+		delete(s.activeHost, a)
+		return err
 	default:
 		return fmt.Errorf("%s: unsupported left type %T", path, a)
 	}
